@@ -514,7 +514,9 @@ def run_rust_hidden(tier, prefix, opcode):
     def cex(q, m_, hv, what):
         model = {str(d): m_[d].as_long() for d in m_.decls() if hasattr(m_[d], "as_long")}
         codev = [c if isinstance(c, int) else m_.eval(c, model_completion=True).as_long() for c in code]
-        payload = {"property": "C07", "kind": "history", "rust": True, "key": key, "code": codev, "model": model, "hidden": [str(h) for h in hv], "what": what}
+        mdef, ments = X.array_image(m_, z3.Array("M", z3.BitVecSort(32), z3.BitVecSort(8)))
+        payload = {"property": "C07", "kind": "history", "rust": True, "key": key, "code": codev, "model": model, "hidden": [str(h) for h in hv], "what": what,
+                   "pc": X.PC0, "mem_default": mdef, "mem": {str(a): b for a, b in ments.items()}}
         res["cex"].append({"key": f"{key}|{what}|{','.join(sorted({str(h).rstrip('0123456789') for h in hv})) or 'frame/page'}", "summary": f"{key}: {what} {sorted(str(h) for h in hv)[:4]}", "payload": payload})
 
     x = z3.BitVec("x_frame", 32)
